@@ -411,6 +411,13 @@ def _work(task):
                 walk(model.graph)
                 for fn_ in model.functions.values():
                     walk(fn_)
+                    for a in fn_.attributes.values():
+                        if a.is_ref():
+                            continue
+                        if a.type == ir.AttributeType.TENSOR and isinstance(a.value, ir.ExternalTensor):
+                            out.append(a.value)
+                        elif a.type == ir.AttributeType.GRAPH and a.value is not None:
+                            walk(a.as_graph())
                 return out
 
             def cond(xv, then_g, name):
@@ -424,7 +431,7 @@ def _work(task):
                 return nd
 
             placements = ("main", "body_with_node", "empty_body", "deep_empty_body", "node_attribute", "constant_in_body_after_reference_attribute", "constant_in_function_body",
-                          "initializer_in_branch_of_function_body")
+                          "initializer_in_branch_of_function_body", "default_of_function_attribute")
             for loc, place in [(l, pl) for l in ("data.bin", "../outside/secret.bin", "link_out", "hard_out", "link_hard_out", "dir_out/secret.bin", "sub/d2.bin") for pl in placements]:
                 x = ir.Value(name="x")
                 ext = ir.ExternalTensor(loc, 0, 4, ir.DataType.UINT8, shape=ir.Shape([4]), name="w", base_dir="")
@@ -448,6 +455,14 @@ def _work(task):
                     node = cond(x, ir.Graph([], [kn.outputs[0]], nodes=[kn], name="then_g"), "n")
                     # the same node with a reference attribute listed first
                     node = ir.Node("", "If", [x], [ir.RefAttr("note", "outer_note", ir.AttributeType.INT)] + list(node.attributes.values()), name="n2")
+                elif place == "default_of_function_attribute":
+                    # the external tensor is the DEFAULT VALUE of a function attribute (FunctionProto.attribute_proto)
+                    fx = ir.Value(name="fx")
+                    fid = ir.Node("", "Identity", [fx], name="fid")
+                    fid.outputs[0].name = "fy"
+                    fgraph = ir.Graph([fx], [fid.outputs[0]], nodes=[fid], name="F_body", opset_imports={"": 20})
+                    funcs = [ir.Function("local", "F", "", graph=fgraph, attributes=[ir.AttrTensor("k", ext)])]
+                    node = ir.Node("local", "F", [x], name="n")
                 elif place in ("constant_in_function_body", "initializer_in_branch_of_function_body"):
                     fx = ir.Value(name="fx")
                     if place == "constant_in_function_body":
@@ -466,7 +481,7 @@ def _work(task):
                     node = ir.Node("", "Constant", [], [ir.AttrTensor("value", ext)], name="n")
                 node.outputs[0].name = "y"
                 g = ir.Graph([x], [node.outputs[0]], nodes=[node], initializers=inits, name="g", opset_imports={"": 20, "local": 1})
-                m = ir.Model(g, ir_version=10, functions=funcs if place in ("constant_in_function_body", "initializer_in_branch_of_function_body") else [])
+                m = ir.Model(g, ir_version=10, functions=funcs if place in ("constant_in_function_body", "initializer_in_branch_of_function_body", "default_of_function_attribute") else [])
                 ir.save(m, os.path.join(root, "base", "m.onnx"))
                 os.symlink("m.onnx", os.path.join(root, "base", "mlink.onnx")) if not os.path.lexists(os.path.join(root, "base", "mlink.onnx")) else None
                 spellings = [("absolute", os.path.join(root, "base", "m.onnx"), root), ("relative", "base/m.onnx", root), ("dot_relative", "./base/m.onnx", root),
